@@ -120,25 +120,30 @@ example : cstr (ftrimCharIn [97, 32, 98, 32]) = [97, 32, 98] := by decide
 
 /-! ## 3. out-direction and results: truncate or blank-pad, nothing outside `[0,L)` -/
 
-private theorem strCopy_core (dest extra s : Buf) (n : Nat) (hn : n ≤ s.length) :
-    (memcpy (dest ++ extra) 0 s 0 (if n < dest.length then n else dest.length)).bind (fun d =>
-      if dest.length > (if n < dest.length then n else dest.length)
-      then memset d (if n < dest.length then n else dest.length) BLANK
-        (dest.length - (if n < dest.length then n else dest.length))
-      else .ok d) = .ok (fassign dest.length (s.take n) ++ extra) := by
-  by_cases hlt : n < dest.length
-  · simp only [hlt, if_true]
-    rw [memcpy_ok _ 0 s 0 n (by simp; omega) (by omega)]
+/-- the copy/fill part of ShroudStrCopy for a non-negative count `k` within the source -/
+theorem strCopyTail_nat (dest extra s : Buf) (k : Nat) (hk : k ≤ s.length) :
+    strCopyTail (dest ++ extra) dest.length s (k : Int)
+      = .ok (fassign dest.length (s.take k) ++ extra) := by
+  unfold strCopyTail
+  by_cases hlt : k < dest.length
+  · have h1 : ((k : Int) < (dest.length : Int)) := by omega
+    have h2 : ¬ ((k : Int) < 0) := by omega
+    have h3 : ((dest.length : Int) > (k : Int)) := by omega
+    simp only [h1, if_true, h2, if_false, Int.toNat_natCast, h3]
+    rw [memcpy_ok _ 0 s 0 k (by simp; omega) (by omega)]
     simp only [Res.ok_bind, List.take_zero, List.nil_append, List.drop_zero, Nat.zero_add]
-    have hd : List.drop n (dest ++ extra) = dest.drop n ++ extra := by
+    have hd : List.drop k (dest ++ extra) = dest.drop k ++ extra := by
       rw [List.drop_append_of_le_length (by omega)]
-    have hl : (s.take n).length = n := by simp; omega
-    have := memset_app (s.take n) (dest.drop n) extra BLANK
+    have hl : (s.take k).length = k := by simp; omega
+    have := memset_app (s.take k) (dest.drop k) extra BLANK
     rw [hl, List.length_drop] at this
     rw [hd, this, fassign_short _ _ (by omega), hl]
     simp
-  · have hge : dest.length ≤ n := by omega
-    simp only [hlt, if_false, gt_iff_lt, Nat.lt_irrefl]
+  · have hge : dest.length ≤ k := by omega
+    have h1 : ¬ ((k : Int) < (dest.length : Int)) := by omega
+    have h2 : ¬ ((dest.length : Int) < 0) := by omega
+    have h3 : ¬ ((dest.length : Int) > (dest.length : Int)) := by omega
+    simp only [h1, if_false, h2, Int.toNat_natCast, h3]
     rw [memcpy_ok _ 0 s 0 dest.length (by simp) (by omega)]
     simp only [Res.ok_bind, List.take_zero, List.nil_append, List.drop_zero, Nat.zero_add]
     rw [fassign_long _ _ (by simp; omega)]
@@ -147,12 +152,14 @@ private theorem strCopy_core (dest extra s : Buf) (n : Nat) (hn : n ≤ s.length
 /-- `ShroudStrCopy(dest, L, src, -1)` with a C string `str` (result of `char *` functions,
     `c_char_*_result_buf`, `c_char_*_inout_buf`): the variable becomes `str` truncated or
     blank-padded to `L`; bytes after `dest[0,L)` are untouched; only `str` and its NUL are read. -/
-theorem strCopy_cstring (dest extra str post : Buf) (h0 : ∀ c ∈ str, c ≠ NUL) :
+theorem strCopy_cstring (dest extra str post : Buf) (h0 : ∀ c ∈ str, c ≠ NUL)
+    (hfit : str.length < 2147483648) :
     strCopy (dest ++ extra) dest.length (some (str ++ NUL :: post)) (-1)
       = .ok (fassign dest.length str ++ extra) := by
   have hneg : ((-1 : Int) < 0) := by decide
-  simp only [strCopy, hneg, if_true, strlen_app str post h0, Res.ok_bind]
-  have := strCopy_core dest extra (str ++ NUL :: post) str.length (by simp)
+  simp only [strCopy, hneg, if_true, strlen_app str post h0, Res.map_ok, Res.ok_bind,
+    narrow32_of_lt _ hfit]
+  have := strCopyTail_nat dest extra (str ++ NUL :: post) str.length (by simp)
   simpa using this
 
 example : strCopy [120, 120, 120] 3 (some [97, 0]) (-1) = .ok [97, 32, 32] := by decide
@@ -164,8 +171,8 @@ theorem strCopy_counted (dest extra s : Buf) (n : Nat) (hn : n ≤ s.length) :
     strCopy (dest ++ extra) dest.length (some s) (n : Int)
       = .ok (fassign dest.length (s.take n) ++ extra) := by
   have hneg : ¬ ((n : Int) < 0) := by omega
-  simp only [strCopy, hneg, if_false, Res.ok_bind, Int.toNat_natCast]
-  exact strCopy_core dest extra s n hn
+  simp only [strCopy, hneg, if_false, Res.ok_bind]
+  exact strCopyTail_nat dest extra s n hn
 
 example : strCopy [120, 120, 120] 3 (some [97, 0, 98, 99]) 3 = .ok [97, 0, 98] := by decide
 
@@ -179,7 +186,7 @@ theorem strCopy_null (dest extra : Buf) (nsrc : Int) :
 theorem strCopy_empty (dest extra post : Buf) :
     strCopy (dest ++ extra) dest.length (some (NUL :: post)) (-1)
       = .ok (List.replicate dest.length BLANK ++ extra) := by
-  have := strCopy_cstring dest extra [] post (by simp)
+  have := strCopy_cstring dest extra [] post (by simp) (by simp)
   simpa [fassign] using this
 
 /-- no NUL reaches the Fortran variable when the text has none -/
@@ -205,10 +212,14 @@ example : strCopy [120] 1 (some [97, 98]) (-1) = .oob := by decide
 /-- `char *arg +intent(out)`: the callee stored `str` and a NUL inside the first `ndest` bytes.
     The variable becomes `str` blank-padded to `ndest`; bytes after it are untouched. -/
 theorem strBlankFill_spec (str post : Buf) (ndest : Nat) (h0 : ∀ c ∈ str, c ≠ NUL)
-    (hlt : str.length < ndest) (hcap : ndest ≤ (str ++ NUL :: post).length) :
+    (hlt : str.length < ndest) (hcap : ndest ≤ (str ++ NUL :: post).length)
+    (hfit : str.length < 2147483648) :
     strBlankFill (str ++ NUL :: post) ndest
       = .ok (fassign ndest str ++ (str ++ NUL :: post).drop ndest) := by
-  simp only [strBlankFill, strlen_app str post h0, Res.ok_bind, gt_iff_lt, hlt, if_true]
+  have h1 : ((ndest : Int) > (str.length : Int)) := by omega
+  have h2 : ¬ ((str.length : Int) < 0) := by omega
+  simp only [strBlankFill, strlen_app str post h0, Res.ok_bind, narrow32_of_lt _ hfit, h1, if_true,
+    h2, if_false, Int.toNat_natCast]
   rw [memset_ok _ _ _ _ (by omega), fassign_short _ _ (by omega)]
   have : str.length + (ndest - str.length) = ndest := by omega
   simp [this]
@@ -331,8 +342,11 @@ theorem allocatable_char_result (str post : Buf) (h0 : ∀ c ∈ str, c ≠ NUL)
     (charResultCtx (some (str ++ NUL :: post))).bind allocatableResult = .ok str := by
   simp only [charResultCtx, strlen_app str post h0, Res.map_ok, Res.ok_bind, allocatableResult,
     copyString, Nat.lt_irrefl, if_false]
-  have := strncpy_app [] (List.replicate str.length UNINIT) [] [] str (NUL :: post) (by simp) rfl h0
-  simpa using this
+  cases str with
+  | nil => simp
+  | cons x xs =>
+    have := strncpy_app [] (List.replicate (x :: xs).length UNINIT) [] [] (x :: xs) (NUL :: post) (by simp) rfl h0
+    simpa using this
 
 example : (charResultCtx (some [97, 98, 0, 99])).bind allocatableResult = .ok [97, 98] := by decide
 
@@ -384,7 +398,11 @@ theorem copyString_confined (cxx dm dq : Buf) (elemLen cvarLen : Nat)
   obtain ⟨r, hr, hl⟩ := strncpy_confined [] dm dq cxx (by simpa using hs)
   refine ⟨r, ?_, hl⟩
   simp only [copyString, ← hn]
-  simpa using hr
+  cases dm with
+  | nil =>
+    have : r = [] := List.eq_nil_of_length_eq_zero (by simpa using hl)
+    simp [this]
+  | cons y ys => simpa using hr
 
 example : copyString (some [97, 98, 0]) 2 [120, 120, 120] 3 = .ok [97, 98, 120] := by decide
 
